@@ -114,6 +114,10 @@ def check(ctx):
                              "replay_how": "oq3-run sema on base and variant; compare with vf/oracle_sema_c.py compare_modulo(mode)"})
         elif o.startswith("asg="):
             nontriv += 1
+    # "analysing the same text twice gives equal results" across the two public entry points (string / file), with
+    # the program's statements in real include files, CRLF line ends, a leading U+FEFF
+    from . import incwrap as IW
+    IW.both_entry_points(ctx, base, failures)
     failures.sort(key=lambda f: len(f["case"]))
     C.decide(ctx, failures, C.load_findings("C17"))
     ctx.coverage.update({
